@@ -73,6 +73,16 @@ def approx_cases(r, tier, count, maxn, small_exhaustive, ks, variants=AVARIANTS)
             for k in ([r.choice(kk)] if len(kk) > 2 and not cid.startswith("x") and r.random() < .6 else kk):
                 key = "%s-%s-k%d" % (cid, v, k)
                 cases[key] = c; meta[key] = (v, k)
+    # mid-size weighted graphs with small k: many dropped edges per run, several of them sharing an endpoint and closed over
+    # spanners with alternative routes of different weight (where a Dijkstra that is stopped early, reused or bounded differs)
+    for i in range(60 if tier == "quick" else 500):
+        n = r.randint(13, 22); p = r.uniform(.3, .55)
+        E = [(a, b) for a in range(n) for b in range(a + 1, n) if r.random() < p]
+        r.shuffle(E)
+        WE, scale = weights(r, [(a, b) if r.random() < .5 else (b, a) for (a, b) in E], r.choice(["small", "wide", "wide", "two"]))
+        v = variants[i % len(variants)]; k = r.choice([k for k in ks if 2 <= k <= 4] or [2])
+        key = "am%d-%s-k%d" % (i, v, k)
+        cases[key] = (n, WE, scale, "approx-mid"); meta[key] = (v, k)
     return cases, meta
 
 def run_kind(binary, kind, cases, meta, args_of, timeout=3600):
